@@ -497,4 +497,115 @@ example : (3 / 5 : ℝ) ^ 2 + (4 / 5) ^ 2 = 1 := by norm_num
 
 end model
 
+/-! ## 7. Round 4: unitary elements and partially polarised light; port 2 of the beam splitter -/
+
+section unitaryTensor
+variable (xr xi yr yi zr zi wr wi : ℝ)
+
+/-- `Jᴴ J = 1` for `J = [[x, y], [z, w]]` as four real polynomial equations (decidable over `ℚ`). -/
+def IsUnitary8 (xr xi yr yi zr zi wr wi : ℝ) : Prop :=
+  xr * xr + xi * xi + zr * zr + zi * zi = 1 ∧ yr * yr + yi * yi + wr * wr + wi * wi = 1 ∧
+  xr * yr + xi * yi + zr * wr + zi * wi = 0 ∧ xr * yi - xi * yr + zr * wi - zi * wr = 0
+
+/-- First row of the generated Mueller matrix of a unitary Jones matrix is `(1, 0, 0, 0)`. -/
+theorem unitary_mueller_first_row (h : IsUnitary8 xr xi yr yi zr zi wr wi) :
+    genMueller xr xi yr yi zr zi wr wi 0 0 = 1 ∧ genMueller xr xi yr yi zr zi wr wi 0 1 = 0 ∧
+    genMueller xr xi yr yi zr zi wr wi 0 2 = 0 ∧ genMueller xr xi yr yi zr zi wr wi 0 3 = 0 := by
+  obtain ⟨h1, h2, h3, h4⟩ := h
+  refine ⟨?_, ?_, ?_, ?_⟩ <;> gen_unfold
+  · linear_combination (1 / 2) * h1 + (1 / 2) * h2
+  · linear_combination (1 / 2) * h1 - (1 / 2) * h2
+  · linear_combination h3
+  · linear_combination -h4
+
+/-- … hence a unitary Jones element conserves the reported intensity of *every* Jones-matrix (partially
+polarised) wavefront, whatever its input Stokes vector. -/
+theorem unitary_conserves_I_tensor (h : IsUnitary8 xr xi yr yi zr zi wr wi) (e : J2 ℝ) (s : S4 ℝ) :
+    (jonesStokes (mkJ xr xi yr yi zr zi wr wi * e) s).i = (jonesStokes e s).i := by
+  obtain ⟨r0, r1, r2, r3⟩ := unitary_mueller_first_row xr xi yr yi zr zi wr wi h
+  rw [mueller_after_element_tensor]
+  simp only [mulVec]
+  rw [r0, r1, r2, r3]; ring
+
+/-- `IsUnitary8` is satisfiable by a non-trivial matrix (`[[i, 0], [0, (3+4i)/5]]`). -/
+example : IsUnitary8 0 1 0 0 0 0 (3/5) (4/5) := by
+  unfold IsUnitary8; norm_num
+end unitaryTensor
+
+/-- The complex form of `Jᴴ J = 1` (as proved for the generated retarder matrix) gives the real form. -/
+theorem unitary8_of_complex (j11 j12 j21 j22 : ℂ)
+    (h11 : (starRingEnd ℂ) j11 * j11 + (starRingEnd ℂ) j21 * j21 = 1)
+    (h12 : (starRingEnd ℂ) j11 * j12 + (starRingEnd ℂ) j21 * j22 = 0)
+    (h22 : (starRingEnd ℂ) j12 * j12 + (starRingEnd ℂ) j22 * j22 = 1) :
+    IsUnitary8 j11.re j11.im j12.re j12.im j21.re j21.im j22.re j22.im := by
+  have a := congrArg Complex.re h11
+  have b := congrArg Complex.re h22
+  have c := congrArg Complex.re h12
+  have d := congrArg Complex.im h12
+  simp only [Complex.add_re, Complex.mul_re, Complex.conj_re, Complex.conj_im, Complex.one_re, Complex.zero_re,
+    Complex.add_im, Complex.mul_im, Complex.zero_im] at a b c d
+  refine ⟨by linarith, by linarith, by linarith, by linarith⟩
+
+section retarderTensor
+open Complex
+variable (t p x : ℂ)
+
+/-- **Audit R4.** The Mueller matrix (generated `jones_to_mueller`) of the matrix `PhaseRetarder.forward` applies
+(generated `ret*`) has first row `(1, 0, 0, 0)`: `I` is conserved for every Stokes vector. -/
+theorem retarder_mueller_first_row (ht0 : t ≠ 0) (hp0 : p ≠ 0) (hx0 : x ≠ 0)
+    (ht : (starRingEnd ℂ) t = t⁻¹) (hp : (starRingEnd ℂ) p = p⁻¹) (hx : (starRingEnd ℂ) x = x⁻¹) (k : Nat) (hk : k < 4) :
+    genMueller (ret11 t t⁻¹ p p⁻¹ x x⁻¹).re (ret11 t t⁻¹ p p⁻¹ x x⁻¹).im (ret12 t t⁻¹ p p⁻¹ x x⁻¹).re (ret12 t t⁻¹ p p⁻¹ x x⁻¹).im
+      (ret21 t t⁻¹ p p⁻¹ x x⁻¹).re (ret21 t t⁻¹ p p⁻¹ x x⁻¹).im (ret22 t t⁻¹ p p⁻¹ x x⁻¹).re (ret22 t t⁻¹ p p⁻¹ x x⁻¹).im 0 k
+      = if k = 0 then 1 else 0 := by
+  obtain ⟨h11, h12, h21, h22⟩ := retarder_unitary t p x ht0 hp0 hx0 ht hp hx
+  obtain ⟨r0, r1, r2, r3⟩ := unitary_mueller_first_row _ _ _ _ _ _ _ _ (unitary8_of_complex _ _ _ _ h11 h12 h22)
+  interval_cases k <;> simp [r0, r1, r2, r3]
+
+/-- Ideal retarders conserve `I` for Jones-matrix wavefronts (C07's tensor clause for retarders). -/
+theorem retarder_conserves_I_tensor (ht0 : t ≠ 0) (hp0 : p ≠ 0) (hx0 : x ≠ 0)
+    (ht : (starRingEnd ℂ) t = t⁻¹) (hp : (starRingEnd ℂ) p = p⁻¹) (hx : (starRingEnd ℂ) x = x⁻¹) (e : J2 ℝ) (s : S4 ℝ) :
+    (jonesStokes (mkJ (ret11 t t⁻¹ p p⁻¹ x x⁻¹).re (ret11 t t⁻¹ p p⁻¹ x x⁻¹).im (ret12 t t⁻¹ p p⁻¹ x x⁻¹).re (ret12 t t⁻¹ p p⁻¹ x x⁻¹).im
+      (ret21 t t⁻¹ p p⁻¹ x x⁻¹).re (ret21 t t⁻¹ p p⁻¹ x x⁻¹).im (ret22 t t⁻¹ p p⁻¹ x x⁻¹).re (ret22 t t⁻¹ p p⁻¹ x x⁻¹).im * e) s).i
+      = (jonesStokes e s).i := by
+  obtain ⟨h11, h12, h21, h22⟩ := retarder_unitary t p x ht0 hp0 hx0 ht hp hx
+  exact unitary_conserves_I_tensor _ _ _ _ _ _ _ _ (unitary8_of_complex _ _ _ _ h11 h12 h22) e s
+
+/-- `backward ∘ forward = id` on Jones-matrix wavefronts (matrix product with any 2×2 complex field). -/
+theorem retarder_backward_forward_tensor (ht : t ≠ 0) (hp : p ≠ 0) (hx : x ≠ 0) (e11 e12 e21 e22 : ℂ) :
+    let f11 := ret11 t t⁻¹ p p⁻¹ x x⁻¹ * e11 + ret12 t t⁻¹ p p⁻¹ x x⁻¹ * e21
+    let f12 := ret11 t t⁻¹ p p⁻¹ x x⁻¹ * e12 + ret12 t t⁻¹ p p⁻¹ x x⁻¹ * e22
+    let f21 := ret21 t t⁻¹ p p⁻¹ x x⁻¹ * e11 + ret22 t t⁻¹ p p⁻¹ x x⁻¹ * e21
+    let f22 := ret21 t t⁻¹ p p⁻¹ x x⁻¹ * e12 + ret22 t t⁻¹ p p⁻¹ x x⁻¹ * e22
+    retB11 t t⁻¹ p p⁻¹ x x⁻¹ * f11 + retB12 t t⁻¹ p p⁻¹ x x⁻¹ * f21 = e11 ∧
+    retB11 t t⁻¹ p p⁻¹ x x⁻¹ * f12 + retB12 t t⁻¹ p p⁻¹ x x⁻¹ * f22 = e12 ∧
+    retB21 t t⁻¹ p p⁻¹ x x⁻¹ * f11 + retB22 t t⁻¹ p p⁻¹ x x⁻¹ * f21 = e21 ∧
+    retB21 t t⁻¹ p p⁻¹ x x⁻¹ * f12 + retB22 t t⁻¹ p p⁻¹ x x⁻¹ * f22 = e22 := by
+  intro f11 f12 f21 f22
+  obtain ⟨i11, i12, i21, i22⟩ := retarder_backward_inverse t p x ht hp hx
+  simp only [f11, f12, f21, f22]
+  refine ⟨?_, ?_, ?_, ?_⟩
+  · linear_combination e11 * i11 + e21 * i12
+  · linear_combination e12 * i11 + e22 * i12
+  · linear_combination e11 * i21 + e21 * i22
+  · linear_combination e12 * i21 + e22 * i22
+end retarderTensor
+
+section model2
+variable (c s : ℝ)
+/-- Port 2 of the linear polarising beam splitter applies `polarizer (-s) c` (the polariser at θ+π/2). -/
+theorem pbs2_eq_model (h : c ^ 2 + s ^ 2 = 1) :
+    let t : ℂ := ⟨c, s⟩; let ti : ℂ := ⟨c, -s⟩
+    pbs211 t ti = (polarizer (-s) c).a11.toComplex ∧ pbs212 t ti = (polarizer (-s) c).a12.toComplex ∧
+    pbs221 t ti = (polarizer (-s) c).a21.toComplex ∧ pbs222 t ti = (polarizer (-s) c).a22.toComplex := by
+  intro t ti
+  have hs : s ^ 2 = 1 - c ^ 2 := by linarith
+  refine ⟨?_, ?_, ?_, ?_⟩ <;>
+  (apply Complex.ext <;>
+   (ret_unfold
+    simp only [t, ti, Cx.toComplex]
+    jones_expand
+    simp [pow_two]
+    ring_nf
+    try (simp only [hs]; ring)))
+end model2
 end HcipyVerif.C08
